@@ -214,6 +214,12 @@ where
                     }
                     b
                 },
+                Call::PartsQualOrInsert(k, v) => {
+                    if let Ok(e) = b.parts.qualifiers.entry(k.as_str()) {
+                        e.or_insert(v.as_str());
+                    }
+                    b
+                },
                 Call::PartsQualEntry(k, v) => {
                     if let Ok(e) = b.parts.qualifiers.entry(k.as_str()) {
                         e.and_modify(|x| x.push_str(v)).or_insert(v.as_str());
